@@ -48,6 +48,11 @@ def _thresholds(repo: Repo, ci: ClassInfo, e: ast.expr) -> Optional[List[int]]:
     if not isinstance(e, ast.IfExp):
         return out
     t = e.test
+    try:
+        const = repo.fold(t, ci=ci)
+        return _thresholds(repo, ci, e.body if const else e.orelse)
+    except NotConst:
+        pass
     if isinstance(t, ast.Compare) and len(t.ops) == 1 and norm(t.left) == "self.min":
         try:
             c = repo.fold(t.comparators[0], ci=ci)
@@ -70,6 +75,11 @@ def _branch_for_case(repo: Repo, ci: ClassInfo, e: ast.expr, m0: int) -> Optiona
     if not isinstance(e, ast.IfExp):
         return e
     t = e.test
+    try:
+        const = repo.fold(t, ci=ci)
+        return _branch_for_case(repo, ci, e.body if const else e.orelse, m0)
+    except NotConst:
+        pass
     if isinstance(t, ast.Compare) and len(t.ops) == 1 and norm(t.left) == "self.min":
         try:
             c = repo.fold(t.comparators[0], ci=ci)
@@ -86,7 +96,12 @@ def _branch_for_case(repo: Repo, ci: ClassInfo, e: ast.expr, m0: int) -> Optiona
 
 
 def _single_return(fn: ast.FunctionDef) -> Optional[ast.expr]:
-    """Return expression of a straight-line function, with local assignments substituted in."""
+    """Return expression of a function, with local assignments substituted in and if/return chains as conditional
+    expressions."""
+    from .. import inline
+    e = inline.as_expression(fn)
+    if e is not None:
+        return e
     from ..codec import subst
     body = stmts_of(fn)
     env = {}
@@ -123,6 +138,9 @@ def inverse_pairs(repo: Repo, rep, P: str, rule: str):
         rep.func(f"rv.controller.{to_owner.name}.to_raw_value / {fr_owner.name}.from_raw_value (as {kind})")
         tp = [a.arg for a in to_fn.args.args if a.arg != "self"][0]
         fp = [a.arg for a in fr_fn.args.args if a.arg != "self"][0]
+        from .. import inline
+        # helpers and predicates are resolved for an instance of exactly this kind
+        to_fn, fr_fn = inline.flatten(repo, ci, to_fn, exact=True), inline.flatten(repo, ci, fr_fn, exact=True)
         te, fe = _single_return(to_fn), _single_return(fr_fn)
         con_t, con_f = f"{rel}:{to_owner.name}.to_raw_value", f"{rel}:{fr_owner.name}.from_raw_value"
         if te is None or fe is None:
